@@ -1,34 +1,29 @@
 (* Properties/C11.v — Trie generation from flat state reproduces the canonical trie.
    Property theorems only; each is closed by [exact] of a lemma proved in
-   Trie/GenerateProofs.v, Trie/GenerateAssemble.v or Trie/GenerateSched.v about the
-   model Trie/Generate.v of /repo/triedb/generate.go (+ trie/stacktrie_partial.go,
-   trie/node.go MountPartitionRoot/AssembleBranch).  [H] is any hash function with
-   32-byte output.
+   Trie/Generate*.v about the model Trie/Generate.v of /repo/triedb/generate.go
+   (+ trie/stacktrie_partial.go, trie/node.go MountPartitionRoot/AssembleBranch).
+   [H] is any hash function with 32-byte output.
 
-   FULL STATEMENTS (the target; what is proved of them is listed below each):
-     gen_root       : generate succeeds  ->  expected = hash_root (state_trie (correct flat))
-     gen_flat       : the flat state afterwards = correct flat
+   THE PROPERTY, and where it is proved (see the END TO END block at the bottom):
+     gen_root       : generate succeeds -> expected = root of the trie built by ordinary
+                      insertion from the corrected flat state              C11_gen_root (full)
+     gen_flat       : the flat state afterwards = the corrected flat state  C11_gen_flat (full)
+     gen_mismatch   : assembled root <> expected -> error                   C11_gen_mismatch (full)
+     partition_order_irrelevant : every interleaving of the partitions' writes gives the
+                      database of the sequential run; a partition's run is independent of
+                      the other partitions' writes   C11_any_schedule, C11_partition_reads_local (full)
      gen_nodes_path : node store = nodes of the state trie (+) nodes of the storage tries
-     gen_mismatch   : assembled root <> expected -> error                       (proved in full)
-     partition_order_irrelevant : commuting write lists => every interleaving gives the
-                      same database as the sequential run                         (proved in full)
-   where [correct flat] = storage of non-existent accounts removed, every account's
-   root replaced by the root of its actual storage.
-   gen_root is proved in its two shape-dependent halves but the halves are not
-   yet joined by the merge-walk: (a) the per-partition builder fed with ascending
-   nibble-stripped keys accepts them all and REPRESENTS the canonical trie of the
-   pairs, its Hash() being that trie's root hash (C11_gen_root_partial_builder,
-   _builder_hash); (b) assembleRoot on the subtree-root blob of a single populated
-   partition (leaf / extension / branch subtree root, MountPartitionRoot at the
-   byte level) returns the root hash of the canonical trie holding that
-   partition's content under its nibble, writes that trie's root node at the empty
-   path and deletes the copy at [p] exactly for a short subtree root
-   (C11_gen_root_partial_fold, C11_fold_content), two or more populated
-   partitions (C11_gen_root_partial_branch, C11_branch_content) and the empty
-   state (C11_gen_root_partial_empty).  NOT proved: the merge-walk (dangling
-   deletion / stale-root rewrite: gen_flat) and hence the end-to-end join of (a)
-   and (b), and that the callback emissions are exactly the canonical node set
-   (gen_nodes_path); these are covered by the correspondence and the Go oracle. *)
+                      PARTIAL: proved are the writes of assembleRoot (the root node at the
+                      empty path; the orphan at [p] deleted iff the canonical trie has no node
+                      there: C11_gen_root_partial_fold / _branch) and that every node a
+                      partition writes lies under its own nibble / its own accounts
+                      (C11_partition_writes_commute); NOT proved: that the builders' callback
+                      emissions are exactly the canonical node sets (Go oracle + correspondence).
+   [corrected flat state] = storage of non-existent accounts removed, every account's
+   root replaced by the root of its actual storage (stale entries re-encoded in slim form,
+   all others byte-identical).
+   The component theorems (builder, fold, branch, erasure) are kept: C11_gen_root is
+   their composition with the merge walk and Canon.v's canon_unique. *)
 From GV Require Import Lib.Tactics Lib.Interleave Trie.Hex Trie.Node Trie.Ops Trie.Hash Trie.OpsProofs Trie.Canon Trie.Stack Trie.StackProofs Trie.ProofProofs Trie.Commit Trie.Generate Trie.GenerateProofs Trie.GenerateAssemble Trie.GenerateAssemble2 Trie.GenerateSched Trie.GenerateWalk Trie.GenerateWalk2 Trie.GenerateRoot Trie.GenerateRoot2 Trie.GenerateRoot3 Trie.GenerateFlat2 Trie.GenerateDisjoint2 Trie.GenerateLocal2 Trie.GenerateExample Trie.GenerateExample2.
 Local Open Scope N_scope.
 
